@@ -243,7 +243,7 @@ func (db *SpecDB) LoadFile(path string, pkgPath string, trusted bool) error {
 			kind, r2 := splitWord(rest)
 			key := kind
 			r3 := r2
-			if kind == "call" || kind == "store" {
+			if kind == "call" || kind == "store" || kind == "join" {
 				sel, r := splitWord(r2)
 				key = kind + " " + sel
 				r3 = r
